@@ -18,9 +18,11 @@ from . import core, tlc
 
 TICK = 8          # VM instructions between scheduling points
 ROWS = {"r1": ("m1", "my_func"), "r2": ("m1", "myXfunc"), "r3": ("m1", "MY_FUNC"), "r4": ("m1", "Foo.bar"),
-        "r5": ("m1", "foo"), "r6": ("m2", "my_func"), "r7": ("m1", "a%b"), "r8": ("m1", "aXb")}
-BATCHES = {"b1": (["r1", "r2"], 0), "b2": (["r3", "r5", "r1"], 1), "b3": (["r4", "r6"], 0), "b4": (["r7", "r8"], 1),
-           "b5": ([], 2)}
+        "r5": ("m1", "foo"), "r6": ("m2", "my_func"), "r7": ("m1", "a%b"), "r8": ("m1", "aXb"),
+        # same module and qualname as r1, differing in ONE other column only (yield / return / argument types)
+        "r9": ("m1", "my_func"), "r10": ("m1", "my_func"), "r11": ("m1", "my_func")}
+BATCHES = {"b1": (["r1", "r2"], 0), "b2": (["r3", "r5", "r1"], 1), "b3": (["r4", "r6", "r9"], 0), "b4": (["r7", "r8", "r10"], 1),
+           "b5": ([], 2), "b6": (["r11", "r9"], 0)}
 
 
 PREFIXES = [None, "my_func", "my", "foo", "Foo.", "a%", "a_", "MY_", "myX", "f", "Foo.bar", "my_funcs"]
@@ -41,7 +43,9 @@ def make_traces(batch_rows, nbad, salt=""):
         mod, qn = ROWS[rid] if rid in ROWS else rid
         f = types.FunctionType(_code(), {}, qn.split(".")[-1])
         f.__module__, f.__qualname__ = mod, qn
-        out.append(CallTrace(f, {"a": int}, type(None) if rid in ("r2", "r8") else None, None))
+        out.append(CallTrace(f, {"a": str} if rid == "r11" else {"a": int},
+                             type(None) if rid in ("r2", "r8") else (int if rid == "r10" else None),
+                             int if rid == "r9" else None))
     for j in range(nbad):
         f = types.FunctionType(_code(), {}, "bad")
         f.__module__, f.__qualname__ = "m1", "bad%d" % j
